@@ -1,5 +1,7 @@
 import PlasVerif.Proofs.Verbatim
 import PlasVerif.Proofs.MathSource
+import PlasVerif.Proofs.MathJax
+import PlasVerif.Generated.MathTemplates
 import PlasVerif.Properties.C04
 import PlasVerif.Properties.C07
 import PlasVerif.Model.NoCharsub
@@ -41,6 +43,24 @@ theorem verbatim_scan_exact (begun : Bool) (esc bg eg : Nat) (name body rest : L
   unfold verbatimEnv
   rw [hp]
   exact verbatimEnvWith_exact _ body rest hne h
+
+/-- **Under a `\\let` alias** (`\\let\\code\\verbatim … \\begin{code}`): the end marker is spelled with the name *written* in
+    `\\begin{…}` (`context.currenvir`), whatever the class is called; so for every written name, class name, body and
+    rest — a body may mention `\\end{verbatim}` — the scan returns exactly the body and resumes after `\\end{code}`. -/
+theorem verbatim_alias_scan_exact (esc bg eg : Nat) (written className body rest : List Nat)
+    (h : FirstIsFinal (endPattern esc bg eg written) body) :
+    verbatimBegun esc bg eg written className (body ++ endPattern esc bg eg written ++ rest)
+      = { content := body, closed := true, resume := rest } :=
+  verbatim_scan_exact true esc bg eg written body rest h
+
+/-- … and taking the marker's name from the class instead is wrong, kernel-checked on `\\begin{c}a\\end{v}b\\end{c}x`
+    with `c` an alias of `v`: the body would be cut at the literal `\\end{v}`. -/
+theorem verbatim_alias_by_class_counterexample :
+    verbatimBegun 92 123 125 [99] [118] ([97, 92, 101, 110, 100, 123, 118, 125, 98] ++ endPattern 92 123 125 [99] ++ [120])
+      = { content := [97, 92, 101, 110, 100, 123, 118, 125, 98], closed := true, resume := [120] } ∧
+    verbatimEnv true 92 123 125 [118] ([97, 92, 101, 110, 100, 123, 118, 125, 98] ++ endPattern 92 123 125 [99] ++ [120])
+      ≠ { content := [97, 92, 101, 110, 100, 123, 118, 125, 98], closed := true, resume := [120] } := by
+  constructor <;> decide +kernel
 
 /-- non-vacuity: a body full of partial end markers, a backslash, braces, `%`, `^^M`, blanks and a line break -/
 example : FirstIsFinal (patterns true 92 123 125 [118]).1
@@ -309,6 +329,53 @@ theorem mathjax_lt_gt_only_changes_angle (s : List Nat) : mathjaxLtGt s = s.flat
   · by_cases h62 : x = 62
     · subst h62; decide
     · simp [angle, h60, h62]
+
+/-- the payload contains no angle character at all, so an HTML parser cannot take part of a formula for a tag -/
+theorem mathjax_no_angle (s : List Nat) : 60 ∉ mathjaxLtGt s ∧ 62 ∉ mathjaxLtGt s := by
+  rw [mathjax_lt_gt_only_changes_angle]
+  induction s with
+  | nil => simp
+  | cons x xs ih =>
+    simp only [List.flatMap_cons, List.mem_append, not_or]
+    refine ⟨⟨?_, ih.1⟩, ⟨?_, ih.2⟩⟩ <;>
+    · unfold angle; split
+      · decide
+      · split
+        · decide
+        · simp; omega
+
+/-- **What MathJax receives is the author's formula with `<` / `>` spelled `\\lt` / `\\gt`, token for token**: for every
+    formula of the grammar (any depth; array column specifications without angle characters), `mathjax_lt_gt` of
+    the reconstructed source re-tokenises — blanks aside — to the author's tokens in which exactly the ordinary
+    characters `<` and `>` are replaced by the control words `\\lt` and `\\gt`. -/
+theorem mathjax_payload_roundtrip (f : F) (hw : WF f = true) (hs : specsNoAngle f = true) :
+    stripBlanks (tokenize defaultCats (mathjaxLtGt (src (mathTree f)))) = (toks f).map angleTok := by
+  rw [mathjax_lt_gt_only_changes_angle]
+  have h := PlasVerif.Proofs.MathJax.src_ltgtF f hw hs
+  unfold PlasVerif.Proofs.MathJax.A at h
+  rw [← h, math_children_roundtrip _ (PlasVerif.Proofs.MathJax.WF_ltgtF f hw), PlasVerif.Proofs.MathJax.toks_ltgtF f hs]
+
+/-- the inline payload `math.mathjax_source` = `\\(` … `\\)` around it -/
+theorem mathjax_inline_payload_roundtrip (f : F) (hw : WF f = true) (hs : specsNoAngle f = true) (hne : f.isNil = false) :
+    stripBlanks (tokenize defaultCats (mathjaxInline (mathTree f)))
+      = .cs [40] :: (toks f).map angleTok ++ [.cs [41]] := by
+  have h := PlasVerif.Proofs.MathJax.src_ltgtF f hw hs
+  unfold PlasVerif.Proofs.MathJax.A at h
+  have hb := lex_src _ (PlasVerif.Proofs.MathJax.WF_ltgtF f hw)
+  rw [PlasVerif.Proofs.MathJax.toks_ltgtF f hs, h, ← mathjax_lt_gt_only_changes_angle] at hb
+  apply LexesTo.tokenize
+  have c40 : whichCode defaultCats 40 ∉ [11, 5, 7, 9, 15] := by decide +kernel
+  have c41 : whichCode defaultCats 41 ∉ [11, 5, 7, 9, 15] := by decide +kernel
+  exact (LexesTo.csymbol c40 (hb.append (LexesTo.csymbol c41 LexesTo.nil))).cast
+    (by simp [mathjaxInline, mathTree_isNil, hne]) (by simp)
+
+example : stripBlanks (tokenize defaultCats (mathjaxInline (mathTree (.ch 97 (.ch 60 (.ch 98 .nil))))))
+    = [.cs [40], .ch 11 97, .cs [108, 116], .ch 11 98, .cs [41]] := by decide +kernel
+
+/-- The HTML5 templates of the mathematics classes write `mathjax_source` (not the raw `source`) into the page —
+    read from the template file on every run. -/
+theorem math_templates_emit_mathjax_source :
+    ∀ n ∈ mathNodeClasses, PlasVerif.Generated.MathTemplates.payloadAttr.lookup n = some "mathjax_source" := by decide
 
 /-- in particular a source without angle characters is handed over unchanged -/
 theorem mathjax_identity_without_angle (s : List Nat) (h60 : 60 ∉ s) (h62 : 62 ∉ s) : mathjaxLtGt s = s := by
